@@ -545,7 +545,10 @@ func padField(s string, n int) []byte {
 // BuildSTL assembles an EBU STL file. dsc: '0' open subtitling, '1' teletext level 1.
 // STLVariant tweaks header fields of the next BuildSTL call: TNB is the "total number of TTI blocks" field as text
 // ("" = the true count; it may be blank or stale in real files), CCT the character code table number ("00" Latin).
-type STLVariant struct{ TNB, CCT string }
+type STLVariant struct {
+	TNB, CCT string
+	Dates    string // "": both dates set; "blank": creation and revision date blank; "rd-blank": revision date blank
+}
 
 // BuildSTLVariant is BuildSTL with header field overrides.
 func BuildSTLVariant(fps int, dsc byte, title string, tcp string, blocks [][]byte, v STLVariant) []byte {
@@ -555,6 +558,12 @@ func BuildSTLVariant(fps int, dsc byte, title string, tcp string, blocks [][]byt
 	}
 	if v.TNB != "" {
 		copy(b[238:243], padField(v.TNB, 5))
+	}
+	switch v.Dates {
+	case "blank":
+		copy(b[224:236], "            ")
+	case "rd-blank":
+		copy(b[230:236], "      ")
 	}
 	return b
 }
@@ -688,6 +697,7 @@ func GenSTL(r *prng.R, idx int) Doc {
 	case 1:
 		v.TNB = fmt.Sprintf("%05d", len(blocks)/2)
 	}
+	v.Dates = r.Pick("", "", "", "blank", "rd-blank") // real files often leave the dates blank
 	return Doc{Name: fmt.Sprintf("gen-stl-%d-dsc%c", idx, dsc), Format: "stl", Data: BuildSTLVariant(fps, dsc, asciiSentence(r, 1, 2), tcp, blocks, v), Cues: cues, Gen: true}
 }
 
@@ -745,6 +755,7 @@ func Fixed() []Doc {
 	}
 	return []Doc{
 		{Name: "fixed-stl-dangling-accent", Format: "stl", Data: BuildSTL(25, '1', "fixed", "00000000", stlBlocks), Cues: 4, Gen: true},
+		{Name: "fixed-stl-blank-dates", Format: "stl", Data: BuildSTLVariant(30, '1', "blank dates", "00000000", stlBlocks[:2], STLVariant{Dates: "blank"}), Cues: 2, Gen: true},
 		{Name: "fixed-vtt-headers", Format: "vtt", Data: []byte(vtt), Cues: 3, Gen: true},
 		SSATwoFormats(false), SSATwoFormats(true),
 		UTF16(t, false), UTF16(t, true),
